@@ -263,6 +263,7 @@ struct H {
                             continue;
                         }
                         Qentem::MemoryRecord::Reset();
+                        ctx.set_cur("long_string=" + std::to_string(n) + "," + std::to_string(esc) + "," + std::to_string(place) + "\nwidth=" + std::to_string(w) + "\nbytes=\n");
                         std::string why;
                         const bool  ok = w == 1 ? long_string_case<char>(n, esc, place, why) : w == 2 ? long_string_case<char16_t>(n, esc, place, why)
                                                                                                       : long_string_case<char32_t>(n, esc, place, why);
